@@ -133,7 +133,7 @@ def r03b(model: Model, rr: RuleResult):
         rr.bad(fi, ct[0], "transformed glyph creation is not tied to `context.transform != identity`", construct=f"_create_transformed_glyph under {facts}")
     if ct is None:
         pass
-    elif [norm(a) for a in ct[0].args] == ["color_glyph", "paint_glyph", "context.transform"]:
+    elif [norm(a) for a in ct[0].args] in (["color_glyph", "paint_glyph", "context.transform"], ["color_glyph", "paint_glyph.glyph", "context.transform"]):
         rr.ok("_create_transformed_glyph(color_glyph, paint_glyph, context.transform): same context")
     else:
         rr.bad(fi, ct[0], "transformed glyph is not built from this context's paint and transform", construct=short(ct[0]))
